@@ -5,13 +5,15 @@ package api //nolint:revive
 import (
 	"encoding/json"
 	"fmt"
+	"io"
+	"net"
 	"net/http"
-	"net/http/httptest"
 	"net/url"
 	"os"
 	"path/filepath"
 	"sort"
 	"strings"
+	"sync"
 	"testing"
 	"time"
 	_ "time/tzdata"
@@ -27,21 +29,87 @@ import (
 )
 
 // ---------------------------------------------------------------------------------------------
-// scaffolding: the real API object and handlers, a fake parent holding a configuration loaded by
-// conf.Load (so the record path is one the configuration accepts), requests pushed through the
-// auth middleware (accept-all manager, as in the upstream API tests) and then the route's handler.
+// scaffolding: the real API server, created the way core creates it (exported fields + Initialize(), listening
+// on a free loopback port) and used through HTTP only, exactly as a client of the API does; a fake parent
+// holding a configuration loaded by conf.Load (so the record path is one the configuration accepts) and the
+// accept-all auth manager of the upstream API tests. Nothing here refers to unexported handlers or to the
+// state of an API object that was not initialized.
 // ---------------------------------------------------------------------------------------------
 
-type c31Parent struct{ cnf *conf.Conf }
+type c31Parent struct {
+	mu  sync.Mutex
+	cnf *conf.Conf
+}
 
-func (p *c31Parent) Log(logger.Level, string, ...any)                      {}
-func (p *c31Parent) APIConfigSnapshot() *conf.Conf                         { return p.cnf }
+func (p *c31Parent) Log(logger.Level, string, ...any) {}
+func (p *c31Parent) APIConfigSnapshot() *conf.Conf {
+	p.mu.Lock()
+	defer p.mu.Unlock()
+	return p.cnf
+}
 func (p *c31Parent) APIConfigGlobalPatch(conf.OptionalGlobal) error        { return nil }
 func (p *c31Parent) APIConfigPathDefaultsPatch(conf.OptionalPath) error    { return nil }
 func (p *c31Parent) APIConfigPathsAdd(string, conf.OptionalPath) error     { return nil }
 func (p *c31Parent) APIConfigPathsPatch(string, conf.OptionalPath) error   { return nil }
 func (p *c31Parent) APIConfigPathsReplace(string, conf.OptionalPath) error { return nil }
 func (p *c31Parent) APIConfigPathsDelete(string) error                     { return nil }
+
+func (p *c31Parent) setConf(cnf *conf.Conf) {
+	p.mu.Lock()
+	p.cnf = cnf
+	p.mu.Unlock()
+}
+
+// c31Server is one running API server; the configuration it serves is swapped per case through its parent
+// (APIConfigSnapshot is how the API learns the configuration on every request).
+type c31Server struct {
+	api    *API
+	parent *c31Parent
+	base   string
+	client *http.Client
+}
+
+type c31TB interface {
+	Fatalf(format string, args ...any)
+	Cleanup(func())
+}
+
+// c31Start starts the API on a free loopback port. Not being able to is a problem of the environment:
+// VERIF-INCONCLUSIVE.
+func c31Start(t c31TB) *c31Server {
+	gin.SetMode(gin.ReleaseMode)
+	var lastErr error
+	for attempt := 0; attempt < 5; attempt++ {
+		ln, err := net.Listen("tcp", "127.0.0.1:0")
+		if err != nil {
+			lastErr = err
+			continue
+		}
+		addr := ln.Addr().String()
+		ln.Close()
+		parent := &c31Parent{}
+		a := &API{
+			Address:      addr,
+			ReadTimeout:  conf.Duration(10 * time.Second),
+			WriteTimeout: conf.Duration(10 * time.Second),
+			AuthManager:  test.NilAuthManager,
+			Parent:       parent,
+		}
+		if err := a.Initialize(); err != nil {
+			lastErr = err
+			continue
+		}
+		srv := &c31Server{api: a, parent: parent, base: "http://" + addr, client: &http.Client{Timeout: 30 * time.Second}}
+		t.Cleanup(func() {
+			srv.client.CloseIdleConnections()
+			a.Close()
+		})
+		return srv
+	}
+	fmt.Printf("VERIF-INCONCLUSIVE: cannot start the API server on a loopback port: %v\n", lastErr)
+	t.Fatalf("VERIF-INCONCLUSIVE: cannot start the API server on a loopback port: %v", lastErr)
+	return nil
+}
 
 func c31Scratch() string {
 	if d := os.Getenv("C31_SCRATCH"); d != "" {
@@ -70,17 +138,23 @@ func c31LoadConf(dir string, recordPath string, mpegts bool) (*conf.Conf, error)
 	return cnf, err
 }
 
-// c31Call runs one request the way the router would: auth middleware, then the handler.
-func c31Call(a *API, method string, target string, params gin.Params, handler func(*gin.Context)) (int, []byte) {
-	w := httptest.NewRecorder()
-	ctx, _ := gin.CreateTestContext(w)
-	ctx.Request = httptest.NewRequest(method, target, nil)
-	ctx.Params = params
-	a.middlewareAuth(ctx)
-	if !ctx.IsAborted() {
-		handler(ctx)
+// c31Call sends one request to the running API server. A transport failure (no HTTP answer at all) is reported
+// as status 0 with a body that carries the inconclusive marker.
+func c31Call(a *c31Server, method string, target string) (int, []byte) {
+	req, err := http.NewRequest(method, a.base+target, nil)
+	if err != nil {
+		return 0, []byte("VERIF-INCONCLUSIVE: harness built a bad request: " + err.Error())
 	}
-	return w.Code, w.Body.Bytes()
+	res, err := a.client.Do(req)
+	if err != nil {
+		return 0, []byte("VERIF-INCONCLUSIVE: no HTTP answer from the API server: " + err.Error())
+	}
+	defer res.Body.Close()
+	body, err := io.ReadAll(res.Body)
+	if err != nil {
+		return 0, []byte("VERIF-INCONCLUSIVE: reading the answer of the API server: " + err.Error())
+	}
+	return res.StatusCode, body
 }
 
 type c31Listing struct {
@@ -102,8 +176,8 @@ func c31ParseStarts(l c31Listing) ([]time.Time, error) {
 	return out, nil
 }
 
-func c31Get(a *API, pathName string) ([]time.Time, []string, error) {
-	code, body := c31Call(a, http.MethodGet, "/v3/recordings/get/"+pathName, gin.Params{{Key: "name", Value: "/" + pathName}}, a.onRecordingsGet)
+func c31Get(a *c31Server, pathName string) ([]time.Time, []string, error) {
+	code, body := c31Call(a, http.MethodGet, "/v3/recordings/get/"+pathName)
 	if code != http.StatusOK {
 		return nil, nil, fmt.Errorf("recordings/get/%s: status %d: %s", pathName, code, body)
 	}
@@ -119,8 +193,8 @@ func c31Get(a *API, pathName string) ([]time.Time, []string, error) {
 	return ts, raw, err
 }
 
-func c31List(a *API) (map[string][]time.Time, error) {
-	code, body := c31Call(a, http.MethodGet, "/v3/recordings/list", nil, a.onRecordingsList)
+func c31List(a *c31Server) (map[string][]time.Time, error) {
+	code, body := c31Call(a, http.MethodGet, "/v3/recordings/list")
 	if code != http.StatusOK {
 		return nil, fmt.Errorf("recordings/list: status %d: %s", code, body)
 	}
@@ -141,11 +215,11 @@ func c31List(a *API) (map[string][]time.Time, error) {
 	return out, nil
 }
 
-func c31Delete(a *API, pathName string, start string) (int, string) {
+func c31Delete(a *c31Server, pathName string, start string) (int, string) {
 	v := url.Values{}
 	v.Set("path", pathName)
 	v.Set("start", start)
-	code, body := c31Call(a, http.MethodDelete, "/v3/recordings/deletesegment?"+v.Encode(), nil, a.onRecordingDeleteSegment)
+	code, body := c31Call(a, http.MethodDelete, "/v3/recordings/deletesegment?"+v.Encode())
 	return code, string(body)
 }
 
@@ -222,7 +296,7 @@ type c31Case struct {
 
 // c31Run builds the tree, runs list -> delete -> list against the real handlers and returns an error
 // describing the first disagreement with the statement.
-func c31Run(cs c31Case, asListed bool) (string, error) {
+func c31Run(a *c31Server, cs c31Case, asListed bool) (string, error) {
 	dir, err := os.MkdirTemp(c31Scratch(), "c31-")
 	if err != nil {
 		return "", fmt.Errorf("VERIF-INCONCLUSIVE: mkdtemp: %w", err)
@@ -237,14 +311,14 @@ func c31Run(cs c31Case, asListed bool) (string, error) {
 	recordPath := filepath.Join(dir, c31Formats[cs.formatIdx].f)
 	cnf, err := c31LoadConf(dir, recordPath, cs.mpegts)
 	if err != nil {
-		return "", fmt.Errorf("configuration rejected: %w", err)
+		return "", fmt.Errorf("VERIF-INCONCLUSIVE: harness configuration rejected: %w", err)
 	}
 	pathConf, _, err := conf.FindPathConf(cnf.Paths, cs.pathName)
 	if err != nil {
 		return "", err
 	}
 
-	a := &API{AuthManager: test.NilAuthManager, Parent: &c31Parent{cnf: cnf}}
+	a.parent.setConf(cnf)
 
 	// segments, named exactly like the recorder names them (recorder_instance.go, format_*_segment.go):
 	// %path substituted, extension added, Encode of the sample's wall-clock time (time.Local)
@@ -310,9 +384,12 @@ func c31Run(cs c31Case, asListed bool) (string, error) {
 		}
 	}
 	if pt, perr := time.Parse(time.RFC3339Nano, reqStr); perr != nil || !pt.Equal(cs.target) {
-		return reqStr, fmt.Errorf("harness: request string %q does not denote the target", reqStr)
+		return reqStr, fmt.Errorf("VERIF-INCONCLUSIVE: harness: request string %q does not denote the target", reqStr)
 	}
 	code, body := c31Delete(a, cs.pathName, reqStr)
+	if code == 0 {
+		return reqStr, fmt.Errorf("%s", body) // transport failure: inconclusive
+	}
 
 	// 3. exactly the segment with that instant disappears
 	var gone []string
@@ -358,7 +435,7 @@ func c31Run(cs c31Case, asListed bool) (string, error) {
 func TestVerifC31SegmentsByInstant(t *testing.T) {
 	rec := kit.R("TestVerifC31SegmentsByInstant")
 	t.Cleanup(kit.Flush)
-	gin.SetMode(gin.ReleaseMode)
+	srv := c31Start(t)
 
 	rapid.Check(t, func(t *rapid.T) {
 		var cs c31Case
@@ -482,7 +559,7 @@ func TestVerifC31SegmentsByInstant(t *testing.T) {
 			return
 		}
 
-		reqStr, err := c31Run(cs, reqKind == "as-listed")
+		reqStr, err := c31Run(srv, cs, reqKind == "as-listed")
 		rec.Case(offsetDiffers, desc+" req="+reqStr, classes...)
 		if err != nil {
 			if strings.Contains(err.Error(), "VERIF-INCONCLUSIVE") {
@@ -500,14 +577,13 @@ func TestVerifC31SegmentsByInstant(t *testing.T) {
 // ---------------------------------------------------------------------------------------------
 
 func TestVerifC31RegressDeleteOtherOffset(t *testing.T) {
-	gin.SetMode(gin.ReleaseMode)
-	srv := time.FixedZone("srv", 3600)
-	start := time.Date(2024, 1, 2, 3, 4, 5, 6000, srv)
+	zone := time.FixedZone("srv", 3600)
+	start := time.Date(2024, 1, 2, 3, 4, 5, 6000, zone)
 	cs := c31Case{
-		formatIdx: 0, local: srv, reqOff: 0, pathName: "cam",
+		formatIdx: 0, local: zone, reqOff: 0, pathName: "cam",
 		starts: []time.Time{start}, target: start, exists: true,
 	}
-	if req, err := c31Run(cs, false); err != nil {
+	if req, err := c31Run(c31Start(t), cs, false); err != nil {
 		t.Errorf("VIOLATION (request %s): %v", req, err)
 	}
 }
@@ -515,29 +591,27 @@ func TestVerifC31RegressDeleteOtherOffset(t *testing.T) {
 // Same instant, but a second segment sits exactly one offset-difference away: the request for the
 // first one must not remove the second one.
 func TestVerifC31RegressDeleteWrongSegment(t *testing.T) {
-	gin.SetMode(gin.ReleaseMode)
-	srv := time.FixedZone("srv", 3600)
-	a := time.Date(2024, 1, 2, 3, 4, 5, 6000, srv)
+	zone := time.FixedZone("srv", 3600)
+	a := time.Date(2024, 1, 2, 3, 4, 5, 6000, zone)
 	b := a.Add(-time.Hour) // its server-local wall clock equals a's wall clock in UTC
 	cs := c31Case{
-		formatIdx: 0, local: srv, reqOff: 0, pathName: "cam",
+		formatIdx: 0, local: zone, reqOff: 0, pathName: "cam",
 		starts: []time.Time{a, b}, target: a, exists: true,
 	}
-	if req, err := c31Run(cs, false); err != nil {
+	if req, err := c31Run(c31Start(t), cs, false); err != nil {
 		t.Errorf("VIOLATION (request %s): %v", req, err)
 	}
 }
 
 // Control: the same request written in the server's own offset works (what the upstream test covers).
 func TestVerifC31RegressDeleteServerOffset(t *testing.T) {
-	gin.SetMode(gin.ReleaseMode)
-	srv := time.FixedZone("srv", 3600)
-	a := time.Date(2024, 1, 2, 3, 4, 5, 6000, srv)
+	zone := time.FixedZone("srv", 3600)
+	a := time.Date(2024, 1, 2, 3, 4, 5, 6000, zone)
 	cs := c31Case{
-		formatIdx: 0, local: srv, reqOff: 3600, pathName: "cam",
+		formatIdx: 0, local: zone, reqOff: 3600, pathName: "cam",
 		starts: []time.Time{a, a.Add(-time.Hour)}, target: a, exists: true,
 	}
-	if req, err := c31Run(cs, false); err != nil {
+	if req, err := c31Run(c31Start(t), cs, false); err != nil {
 		t.Errorf("VIOLATION (request %s): %v", req, err)
 	}
 }
